@@ -1,12 +1,96 @@
 HOOK_COMMITS = []
-NOTES = "Contract-based deductive verification (pyvc: own VC generator over the real AST + z3/cvc5) with the same contracts evaluated at run time over exhaustive small domains as the labelled bounded stand-in. See DESIGN.md."
-_B = "bounded stand-in: run-time contracts on the real code over exhaustively enumerated small domains (+ seeded samples); spec functions are independent definitions"
+NOTES = ("Contract-based deductive verification (pyvc: own VC generator over the real AST of /repo, re-read every run, "
+         "sidecar contracts in contracts/, z3 + cvc5) with the SAME contracts and independent spec functions evaluated at run "
+         "time over exhaustively enumerated small domains as the labelled bounded stand-in (never counted as proof). "
+         "known_findings.json (+ known_findings.d/) lists genuine defects of Permuta that were not repaired; 'fixed' entries "
+         "record the fix: commits in /repo.  See DESIGN.md.")
+
+_T = "bounded"
+
+
+def _c(category, text, note, technique):
+    return {"category": category, "text": text, "note": note, "technique": technique}
+
+
+_BNOTE = ("bounded stand-in: exhaustive only up to the stated sizes (+ seeded samples, VERIF_SEED); spec functions in specs/ are "
+          "independent definitions; deductive part trusts pyvc + z3/cvc5, CPython builtins as axiomatised in pyvc/builtins_model.py, "
+          "mathematical ints; termination not verified")
+
 CHECKS = {
-    "C01": {
-        "category": "exploration",
-        "text": "Listing exactness of the pruned backtracking is decided by the bounded stand-in (all pattern/permutation pairs up to a size, reuse histories of one pattern object); wrapper consistency and memo discipline are deductive obligations over the real AST.",
-        "note": "bounded to the stated sizes; brute-force spec over itertools.combinations; CPython tuple/list semantics",
-        "technique": "run-time contracts vs brute-force definition over all pairs up to a size (bounded) + deductive wrapper/memo obligations (pyvc/z3)",
-    },
+    "C01": _c("exploration",
+              "Listing exactness of the pruned backtracking is decided by the bounded stand-in (every pattern/permutation pair up to |patt|<=5,|perm|<=7, "
+              "seeded longer ones, colourings, reuse histories of one pattern object, floor/ceiling table); wrapper consistency is additionally stated as "
+              "deductive obligations where contracts exist.", _BNOTE,
+              "run-time contracts vs brute-force definition over all pairs up to a size (bounded) + deductive obligations (pyvc/z3)"),
+    "C02": _c("exploration",
+              "Av(basis) against the filter of S_n for all small classical and mesh bases, ALL operation sequences of length <=2/3 over a 23-op alphabet and seeded "
+              "length-12 histories, representation invariant of the level cache after every operation. The level builder itself is outside the deductive subset.", _BNOTE,
+              "bounded: run-time contracts + representation invariant over exhaustive short operation sequences"),
+    "C03": _c("exploration",
+              "Mesh occurrences against the region definition for all mesh patterns of length <=2 and seeded 3-4, bivincular-type patterns against an independent adjacency "
+              "definition for every requirement set, mixed lists; deductive obligations for the adjacency-to-shading encoding where contracts exist.", _BNOTE,
+              "bounded: run-time contracts vs region/adjacency definitions + deductive obligations (pyvc/z3)"),
+    "C04": _c("exploration",
+              "Deductive (unbounded, from the real AST): the six Perm symmetries and the four MeshPatt symmetries against the geometric maps incl. bijectivity "
+              "(ghost inverse witnesses), and the dihedral relations r^a r^b = r^(a+b) for all integers, s^2 = e, s r s = r^-1, commutation with get_perm as lemmas over "
+              "the contracts. Bounded: equivariance of the real containment search, orbit helpers, lex_min, CLI.", _BNOTE,
+              "deductive contracts + lemmas (pyvc/z3) for the maps and group laws; bounded run-time contracts for equivariance and set helpers"),
+    "C05": _c("exploration",
+              "Basis/MeshBasis construction over all small multisets in every order: subset, antichain, cover, same class (perms <=6), fixed point, order/repetition "
+              "invariance, from_string 0/1-based, Av identity.", _BNOTE,
+              "bounded: run-time contracts over all multisets of <=3 patterns in every order"),
+    "C06": _c("exploration",
+              "sub_mesh_pattern against the geometric region definition and as the strongest implied pattern; soundness of every reported mesh-in-mesh occurrence "
+              "against all occurrences in all permutations up to length 5/6; region tests.", _BNOTE,
+              "bounded: run-time contracts vs region definition and containment sets"),
+    "C07": _c("other",
+              "Interleavings are NOT enumerated or proved. What is checked: sampled real-thread schedules (2-4 threads, switch interval 1e-6) on shared classes with every "
+              "answer compared to the single-threaded oracle and the representation invariant after each round; structural lock-ownership obligations come from the "
+              "deductive layer where implemented.", _BNOTE + "; GIL atomicity of list/dict operations assumed",
+              "sampled real-thread schedules vs sequential oracle (bounded, sampled) + structural lock-ownership obligations"),
+    "C08": _c("exploration",
+              "All pairs/triples of a pool of perms, mesh/bivincular/vincular/covincular patterns and bases: equality vs abstract value, hash coherence and stability across "
+              "allocation churn, total order laws across subclasses, sorted() independence of input order.", _BNOTE,
+              "bounded: run-time contracts over all pairs/triples of a pool (+ deductive dunder obligations where implemented)"),
+    "C09": _c("exploration",
+              "Generators, rank/unrank bijection over all ranks below sum n! (n<=7/9), standardisation on all small sequences of many element types with warm memo, "
+              "all notations incl. boundary lengths around 10, validated constructor, mesh rank/unrank.", _BNOTE,
+              "bounded: run-time contracts over full rank ranges and small sequence spaces"),
+    "C10": _c("exploration",
+              "Deductive (unbounded lengths): direct/skew sum (arity 1-3), compose (2-3), __call__, insert (all optional-argument shapes), remove/remove_element "
+              "(with an induction lemma on the prefix count), the four cyclic shifts (explicit quotient encoding of %), each with bijectivity. Bounded: all operations, "
+              "laws, decompositions, intervals, simplicity, children/coveredby duality on all perms up to 7/8.", _BNOTE,
+              "deductive contracts (pyvc/z3) for the pointwise operations; bounded run-time contracts for decompositions and laws"),
+    "C11": _c("exploration",
+              "Deductive (unbounded): 14 positional listings as definitional filters (filter-congruence rule / yield-loop invariants) and 22 count/list wrappers "
+              "(count = len(listing)). Bounded: every statistic and table entry BY NAME against independent definitions on all perms <=7/8, distributions, preservation tools.", _BNOTE,
+              "deductive listing contracts (pyvc/z3) + bounded run-time contracts vs independent definitions"),
+    "C12": _c("exploration",
+              "Sorting operators vs explicit device simulations, sortable predicates vs pattern characterisations, pass counts, Simion-Schmidt bijection on full domains "
+              "up to n=8/9, family predicates vs independent definitions.", _BNOTE, "bounded: run-time contracts vs device simulations"),
+    "C13": _c("exploration",
+              "Verdicts vs structure-theorem specs, container independence incl. one-shot iterators, memo cold/warm, symmetries, consistency with real enumeration.", _BNOTE,
+              "bounded: run-time contracts vs class-membership definitions and enumeration"),
+    "C14": _c("exploration",
+              "Pin word decoding vs an independent geometric decoder for all pin words <=5/6, tables, factorisation, translations, containment vs real pattern containment.", _BNOTE,
+              "bounded: run-time contracts vs geometric decoder and real containment"),
+    "C15": _c("exploration",
+              "Acceptance of every word of M up to length 8/10 vs containment of a basis element in the decoded permutation, exact finiteness decision, exact DB-vs-fresh equivalence.", _BNOTE,
+              "bounded word-level comparison + exact automata equivalence (product construction)"),
+    "C16": _c("exploration",
+              "Verdict consistency across the four entry points, order/symmetry invariance, Schmerl-Trotter consequence on real enumeration, family oracles.", _BNOTE,
+              "bounded: run-time contracts vs family oracles and enumeration of simples"),
+    "C17": _c("exploration",
+              "BiSC soundness/completeness/irredundancy on ALL subsets of S0..S3 and seeded sets up to length 5, own containment vs definition, representations, clean-up, auto_bisc.", _BNOTE,
+              "bounded: run-time contracts over all small input sets"),
+    "C18": _c("exploration",
+              "Every shading-lemma licence vs equality of container sets (perms <=6/7), add_point vs 'occurrence with a point in the cell', region tests, ascii round trip.", _BNOTE,
+              "bounded: run-time contracts vs container sets"),
+    "C19": _c("exploration",
+              "Every strategy vs its spec predicate, invariance under order/repetition/symmetries, fast vs slow search, shape helpers.", _BNOTE,
+              "bounded: run-time contracts vs spec predicates"),
+    "C20": _c("exploration",
+              "All write/read sequences of length <=3/4 in temp directories, malformed files, automaton DB sequences with exact language equivalence, shipped data partition check.", _BNOTE,
+              "bounded: exhaustive short operation sequences over a file model + exact automata equivalence"),
 }
-NOT_APPLICABLE = {f"C{n:02d}": "check under construction in this session (not yet claimed)" for n in range(2, 21)}
+NOT_APPLICABLE = {}
